@@ -426,6 +426,13 @@ def _special_point(ca):
         e, target, at_special = ca.args[0], Fraction(0), False
     elif ca.name in ('eq', 'ne') and len(ca.args) == 2 and all(isinstance(x, Rat) for x in ca.args):
         e, target, at_special = ca.args[0] - ca.args[1], Fraction(0), ca.name == 'eq'
+    elif ca.name in ('eq', 'ne') and len(ca.args) == 2 and any(x in ('False', 'True') for x in ca.args if isinstance(x, str)):
+        # `x is False` / `x == True`: in arithmetic False is 0 and True is 1
+        rats = [x for x in ca.args if isinstance(x, Rat)]
+        keys = [x for x in ca.args if isinstance(x, str)]
+        if len(rats) != 1 or len(keys) != 1:
+            return None
+        e, target, at_special = rats[0], Fraction(1 if keys[0] == 'True' else 0), ca.name == 'eq'
     else:
         return None
     # e must be affine in exactly one free symbol: e = p*s + q with constants p != 0, q
@@ -587,6 +594,18 @@ def decide_equal(a, b, budget=None, _why=None):
                             ca_ = TABLE.atoms[mm_[0][0][0]]
                     if ra_ == 'different' and ca_ is not None and ca_.kind == 'fn' and ca_.name in ('lt', 'le', 'gt', 'ge'):
                         continue
+                    if ca_ is not None and ca_.kind == 'fn' and ca_.name in ('eq', 'ne') and len(ca_.args) == 2 and _DECIDE_DEPTH[0] < 12 \
+                            and any(isinstance(x_, str) and (x_.startswith('str<') or x_ == 'None') for x_ in ca_.args):
+                        # a test of an input against a string / None: both cases are legitimate inputs - the forms must agree under the
+                        # assumption that the test holds and under the assumption that it does not
+                        verdicts_ = []
+                        for tv_ in (True, False):
+                            verdicts_.append(decide_equal(assume(a, c0_, tv_), assume(b, c0_, tv_), budget))
+                        if 'different' in verdicts_:
+                            return 'different'
+                        if all(v_ == 'equal' for v_ in verdicts_):
+                            return 'equal'
+                        return 'unknown'
                     sp_ = _special_point(ca_) if ca_ is not None else None
                     if sp_ is not None and _DECIDE_DEPTH[0] < 12:
                         # an equality / truthiness test of one input: the arm taken away from the special value must agree everywhere,
